@@ -30,6 +30,7 @@ type TaskSpec struct {
 
 type Scenario struct {
 	Tasks   []TaskSpec     `json:"tasks"`
+	LateDone bool          `json:"late_done,omitempty"` // Done() is first called by a waiter task, at a scheduler-chosen time
 	Preload []int          `json:"preload"` // callback modules imported before the run
 	Policy  string         `json:"policy"`  // random | pct | quantum | serial
 	PNum    int            `json:"pnum"`
@@ -91,6 +92,9 @@ type run struct {
 var cur *run
 
 func (r *run) observe() {
+	if r.done == nil {
+		return
+	}
 	if !r.doneSeen && simrt.ChanClosed(r.done) {
 		r.doneSeen = true
 		seq := simrt.Log("done.closed", "")
@@ -181,6 +185,7 @@ func (Engine) Gen(seed uint64, idx int, tier string) interface{} {
 	if r.Chance(1, 3) {
 		sc.Tasks = append(sc.Tasks, TaskSpec{Ops: []Op{{Kind: "done", ID: id}}})
 		id++
+		sc.LateDone = r.Chance(1, 2)
 	}
 	for i := 0; i < nCB; i++ {
 		if r.Chance(1, 2) {
@@ -380,7 +385,10 @@ func (e Engine) Exec(sci interface{}, opt harness.ExecOpts) *harness.Outcome {
 	simfs.Install(fs)
 	defer simfs.Install(nil)
 	ctx := py.NewContext(py.ContextOpts{SysArgs: []string{"sim"}, SysPaths: []string{"/simcwd/lib"}})
-	r := &run{ctx: ctx, done: ctx.Done()}
+	r := &run{ctx: ctx}
+	if !sc.LateDone {
+		r.done = ctx.Done()
+	}
 	cur = r
 	defer func() { cur = nil }()
 	if err := py.Import(ctx, "simhost"); err != nil {
@@ -454,7 +462,11 @@ func (e Engine) Exec(sci interface{}, opt harness.ExecOpts) *harness.Outcome {
 					r.ev("close.return", op.ID, d)
 				case "done":
 					r.ev("done.wait", op.ID, "")
-					simrt.ChanRecv(ctx.Done())
+					ch := ctx.Done()
+					if r.done == nil {
+						r.done = ch
+					}
+					simrt.ChanRecv(ch)
 					r.ev("done.woke", op.ID, "")
 				default:
 					rr := &reqResult{op: op}
@@ -563,6 +575,19 @@ func (e Engine) Exec(sci interface{}, opt harness.ExecOpts) *harness.Outcome {
 			if doneAt > 0 {
 				out.Violate("I4-done-before-callbacks", "done-before-cb", "Done signalled (seq %d) before close callback of simcb%d (seq %d)", doneAt, ev.ID, ev.Seq)
 			}
+		case "done.woke":
+			// a waiter woke up: Done had been signalled by now
+			if len(inflight) > 0 {
+				out.Violate("I4-done-while-running", "done-while-running", "a Done waiter woke up (seq %d) while requests %v were executing", ev.Seq, keys(inflight))
+			}
+			for i := range preloaded {
+				if cbCount[i] == 0 {
+					out.Violate("I4-done-before-callbacks", "done-before-cb", "a Done waiter woke up (seq %d) before the close callback of simcb%d ran", ev.Seq, i)
+				}
+			}
+			if doneAt == 0 {
+				doneAt = ev.Seq
+			}
 		case "done.closed":
 			doneAt = ev.Seq
 			if len(inflight) > 0 {
@@ -611,8 +636,11 @@ func (e Engine) Exec(sci interface{}, opt harness.ExecOpts) *harness.Outcome {
 		}
 	}
 	if !res.Deadlock && !res.Capped && len(res.Panics) == 0 {
-		if closeInvoked && firstCloseRet > 0 && doneAt == 0 {
+		if closeInvoked && firstCloseRet > 0 && doneAt == 0 && r.done != nil {
 			out.Violate("I4-done-never-signalled", "done-never", "Close returned but Done was never signalled")
+		}
+		if firstCloseRet > 0 && !simrt.ChanClosed(ctx.Done()) {
+			out.Violate("I4-done-never-signalled", "done-never", "Close returned but the channel returned by Done() after the run is not closed")
 		}
 		if doneAt > 0 && firstCloseRet == 0 && closeInvoked {
 			out.Violate("I2-close-never-returned", "close-never", "Done signalled but no Close returned")
